@@ -139,6 +139,25 @@ def run(ctx):
         if len(samples) < 3:
             samples.append({'passwords': pws[:8], 'coverage': cov, 'grammar': list(g.items())[:5]})
         nontrivial += 1
+    # 2b. the writer on long lists (sizes around every power of ten and a few odd ones): every item written once, in order
+    from lib_trainer.save_pcfg_data import calculate_and_save_counter
+    sizes = [9, 10, 11, 99, 100, 101, 999, 1000, 1001, 9999, 10000, 10001, 20003] + ([] if ctx.quick else [30000, 65536, 100001])
+    for n in sizes:
+        k = rng.randint(1, 5)
+        counter = Counter()
+        for j in range(n):
+            counter[f"{j:0{k}d}x{j % 7}"] = 1 + (j * 7919) % 5
+        path = os.path.join(root, 'long.txt')
+        with contextlib.redirect_stdout(io.StringIO()):
+            ok = calculate_and_save_counter(path, Counter(counter), 'utf-8')
+        want = [(str(a), str(b)) for a, b in expected_file(counter)]
+        got = read_file(path, 'utf-8') if ok else None
+        cases += 1
+        if got != want:
+            have = {x for x, _ in got} if got is not None else set()
+            miss = [a for a, _ in want if a not in have][:3]
+            viol.append({'property': 'C06', 'kind': 'list-not-relative-frequency', 'file': 'long list', 'items': n, 'written': None if got is None else len(got),
+                         'missing': miss, 'witness': {'items': n, 'key_width': k, 'rule': 'key j = f"{j:0{k}d}x{j%7}", count 1 + (j*7919)%5'}})
     # 3. determinism across hash seeds (subprocess: trainer.py twice)
     det_runs = 0
     for i in range(ctx.scale(1, 6)):
